@@ -9,7 +9,7 @@
     [final_state g xs] is the state saved last.  [collision H] is an explicit pair of
     different (address, power) lists with the same hash. *)
 From Coq Require Import List ZArith NArith Bool.
-From Kardia Require Import C14.Model C14.Proofs C14.ProofsPrune.
+From Kardia Require Import C14.Model C14.Proofs C14.ProofsPrune C14.ProofsChain C14.ProofsExact C14.SourceTie.
 Import ListNotations.
 Local Open Scope N_scope.
 
@@ -124,6 +124,177 @@ Theorem C14_prune_below_head_safe : forall d from d' a b n r, d_head d = Some n 
   prune d from n = (d', a, b) -> get n (d_cs d) = Some r -> load d' = load d.
 Proof. exact prune_below_head_safe. Qed.
 Print Assumptions C14_prune_below_head_safe.
+
+(** WHEN the round trip is exact (round 4): for every chain whose final state has a current set
+    with another record key than its next set, and a last set with another key than both, Load
+    returns the saved state in full — every priority, the proposer and the cached total of all
+    three sets (state_eq: the property as stated).  So the full statement fails only through key
+    reuse between the sets of one state: a membership that stays, or returns within two blocks. *)
+Theorem C14_roundtrip_full_when_keys_differ : forall H PK g gb xs, genesis_ok g gb -> chain_wf g xs ->
+  valset_key H (vals (final_state g xs)) <> valset_key H (next_vals (final_state g xs)) ->
+  (forall X, last_vals (final_state g xs) = Some X ->
+     valset_key H X <> valset_key H (vals (final_state g xs)) /\
+     valset_key H X <> valset_key H (next_vals (final_state g xs))) ->
+  exists d l, boot_chain H PK g gb xs = Some (d, final_state g xs) /\ load d = LOk l /\
+              state_eq l (final_state g xs).
+Proof. exact roundtrip_full_fresh. Qed.
+Print Assumptions C14_roundtrip_full_when_keys_differ.
+
+(** ... and conversely, whenever the current set has the key of the next set (always, for a
+    static membership), Load returns the NEXT set — its priorities, its proposer — as Validators:
+    the known finding, for every such chain and every hash function. *)
+Theorem C14_roundtrip_validators_overwritten : forall H PK g gb xs, genesis_ok g gb -> chain_wf g xs ->
+  valset_key H (vals (final_state g xs)) = valset_key H (next_vals (final_state g xs)) ->
+  exists d l, boot_chain H PK g gb xs = Some (d, final_state g xs) /\ load d = LOk l /\
+              vals l = next_vals (final_state g xs).
+Proof. exact roundtrip_vals_overwritten. Qed.
+Print Assumptions C14_roundtrip_validators_overwritten.
+
+(** What Load returns after a chain was saved, EXACTLY, for every chain and every hash function
+    (round 4): the saved state with
+      Validators     := NextValidators                 if their record keys agree, else as saved;
+      LastValidators := NextValidators                 if its key agrees with NextValidators',
+                        else Validators (as saved)     if its key agrees with Validators',
+                        else as saved
+    (ProofsExact.loaded_as) and every other field as saved.  The two theorems above are its
+    corollaries; the known finding is precisely the difference between [loaded_as s] and [s]. *)
+Theorem C14_roundtrip_characterised : forall H PK g gb xs, genesis_ok g gb -> chain_wf g xs ->
+  exists d l, boot_chain H PK g gb xs = Some (d, final_state g xs) /\ load d = LOk l /\
+              state_eq l (loaded_as H (final_state g xs)).
+Proof. exact roundtrip_characterised. Qed.
+Print Assumptions C14_roundtrip_characterised.
+
+(** What PruneState deletes, exactly (round 4; the converse of C14_prune_doomed): the record under
+    [k] is deleted iff [k] is the LastValidatorsInfoHash of a pruned height and neither the
+    genesis record nor the record of height [to] names it; and a deleted record is really gone. *)
+Theorem C14_prune_doomed_iff : forall d from to k, In k (doomed d from to) <->
+  ((exists i r, from1 from <= i < to /\ get i (d_cs d) = Some r /\ r_last r = k) /\
+   (forall r, get 0 (d_cs d) = Some r -> ~ In k (rec_keys r)) /\
+   (forall r, get to (d_cs d) = Some r -> ~ In k (rec_keys r))).
+Proof. exact doomed_iff. Qed.
+Print Assumptions C14_prune_doomed_iff.
+
+Theorem C14_prune_doomed_deleted : forall d from to d' a b k, prune d from to = (d', a, b) ->
+  In k (doomed d from to) -> get k (d_vi d') = None.
+Proof. exact doomed_deleted. Qed.
+Print Assumptions C14_prune_doomed_deleted.
+
+(** Chain level, every range (round 4; closes the statement that was in Open.v): for every chain
+    produced by updateState, every PruneState(from, to) and every kept height h other than 0 and
+    [to] (which PruneState protects itself, see above): if no set that was LastValidators at a
+    pruned height has the record key of one of the three sets of state h — i.e. the membership
+    does not recur at h — then Load, LoadValidators and LoadConsensusParams at h return exactly
+    what they returned before.  Together with C14_prune_safe_refuted (a recurring membership
+    breaks it) this is the exact frame of the known finding at chain level. *)
+Theorem C14_prune_safe_chain : forall H PK g gb xs d from to d' a b,
+  genesis_ok g gb -> chain_wf g xs -> boot_chain H PK g gb xs = Some (d, final_state g xs) ->
+  prune d from to = (d', a, b) ->
+  forall sh, In sh (states g xs) -> kept from to (last_height sh) ->
+    (last_height sh <> 0 -> last_height sh <> to ->
+     forall sp X, In sp (states g xs) -> from1 from <= last_height sp < to -> last_vals sp = Some X ->
+       valset_key H X <> okey H (last_vals sh) /\ valset_key H X <> valset_key H (vals sh) /\
+       valset_key H X <> valset_key H (next_vals sh)) ->
+    load_at d' (last_height sh) = load_at d (last_height sh) /\
+    load_validators d' (last_height sh) = load_validators d (last_height sh) /\
+    load_params d' (last_height sh) = load_params d (last_height sh).
+Proof. exact prune_safe_chain. Qed.
+Print Assumptions C14_prune_safe_chain.
+
+(** ... in the form it was stated in Open.v: ranges that start at the bottom (from <= 1), no
+    membership of a pruned height recurring above [to] *)
+Theorem C14_prune_safe_without_recurrence : forall H PK g gb xs d from to d' a b,
+  genesis_ok g gb -> chain_wf g xs ->
+  boot_chain H PK g gb xs = Some (d, final_state g xs) ->
+  prune d from to = (d', a, b) -> from <= 1 ->
+  (forall sp sh X, In sp (states g xs) -> In sh (states g xs) ->
+      1 <= last_height sp < to -> to < last_height sh -> last_vals sp = Some X ->
+      valset_key H X <> okey H (last_vals sh) /\ valset_key H X <> valset_key H (vals sh) /\
+      valset_key H X <> valset_key H (next_vals sh)) ->
+  forall sh, In sh (states g xs) -> kept from to (last_height sh) ->
+    load_at d' (last_height sh) = load_at d (last_height sh) /\
+    load_validators d' (last_height sh) = load_validators d (last_height sh).
+Proof. exact prune_safe_without_recurrence_proof. Qed.
+Print Assumptions C14_prune_safe_without_recurrence.
+
+(** Save then Load of ANY state at ANY height over ANY database (hand-built states, records of
+    an older version, heights beyond 2^32, sets with extreme priorities / a foreign proposer / a
+    stale cached total): if Save accepts the state, the block meta of its height is stored, its
+    current and next set are well formed and — above height 0 — the records of its last and
+    current set are present, then Load at that height returns chain id, height, the NEXT set
+    exactly (every priority, the proposer, the cached total voting power), both "last height
+    changed" markers and the params as saved, the initial height (1 for a record without one, as
+    MakeGenesisState does), the membership and powers of the current and last set (or a
+    collision), and block id / time / tx count / app hash from the block store (zero id and
+    zero app hash at height 0).  PARTIAL w.r.t. the property text in the same way as
+    C14_roundtrip_partial: priorities/proposer of Validators and LastValidators. *)
+Theorem C14_save_load_any_state_partial : forall H PK d s d' m, save H PK d s = Some d' ->
+  get (last_height s) (d_bm d) = Some m -> m_height m = last_height s ->
+  wfset (vals s) -> wfset (next_vals s) ->
+  (0 < last_height s -> exists X, last_vals s = Some X /\ wfset X /\ has H (d_vi d) X /\
+                                  has H (d_vi d) (vals s)) ->
+  exists l, load_at d' (last_height s) = LOk l /\
+    chain_id l = chain_id s /\
+    initial_height l = (if N.eqb (initial_height s) 0 then 1 else initial_height s) /\
+    last_height l = last_height s /\ last_total_tx l = m_ntx m /\
+    last_bid l = (if N.ltb 0 (last_height s) then m_bid m else bid_zero) /\
+    last_time l = m_time m /\
+    app_hash l = (if N.ltb 0 (last_height s)
+                  then match get (last_height s) (d_ah d) with Some a => a | None => 0 end else 0) /\
+    params l = params s /\ lhvc l = lhvc s /\ lhcpc l = lhcpc s /\
+    next_vals l = next_vals s /\
+    (keylist (vals l) = keylist (vals s) \/ collision H) /\
+    match last_vals l with
+    | None => last_height s = 0
+    | Some Y => exists X, last_vals s = Some X /\ (keylist Y = keylist X \/ collision H)
+    end.
+Proof. exact save_load_any. Qed.
+Print Assumptions C14_save_load_any_state_partial.
+
+(** Save refuses (panics before anything is written) exactly the states above height 0 without
+    LastValidators; a refused Save is no operation: database and node state are unchanged. *)
+Theorem C14_save_refused_iff : forall H PK d s,
+  save H PK d s = None <-> (last_height s <> 0 /\ last_vals s = None).
+Proof. exact save_refused_iff. Qed.
+Print Assumptions C14_save_refused_iff.
+
+Theorem C14_refused_save_is_noop : forall H PK m s,
+  m_cur m = Some s -> last_height s <> 0 -> last_vals s = None -> step H PK m OSave = (m, ObSave None).
+Proof. exact refused_save_step. Qed.
+Print Assumptions C14_refused_save_is_noop.
+
+(** Saving the same state a second time (ApplyBlock replayed after a crash) changes nothing any
+    load returns, at any height, whatever the database held. *)
+Theorem C14_resave_same_loads : forall H PK d s d1 d2, save H PK d s = Some d1 -> save H PK d1 s = Some d2 ->
+  (forall h, load_at d2 h = load_at d1 h) /\ (forall h, load_validators d2 h = load_validators d1 h) /\
+  (forall h, load_params d2 h = load_params d1 h) /\ load d2 = load d1.
+Proof. exact resave_same_loads. Qed.
+Print Assumptions C14_resave_same_loads.
+
+(** The height suffix of the state-record key (big-endian uint64, what the run compares with the
+    key bytes the database was handed) separates all heights below 2^64: two states are never
+    saved under one key. *)
+Theorem C14_state_key_injective : forall h1 h2, h1 < 2 ^ 64 -> h2 < 2 ^ 64 -> be64 h1 = be64 h2 -> h1 = h2.
+Proof. exact be64_injective. Qed.
+Print Assumptions C14_state_key_injective.
+
+(** Source tie: the guards, stored constants and stored operands of saveState, PruneState,
+    loadStateAtHeight, Load, LoadValidators, LoadConsensusParams, LoadStateFromDBOrGenesisDoc,
+    saveValidatorsInfo, LatestBlockState.ToProto / StateFromProto, MakeGenesisState, updateState,
+    ValidatorSet.Hash / ToProto / ValidatorSetFromProto / ValidateBasic / IsNilOrEmpty,
+    Validator.ValidateBasic / ValidatorFromProto, as go2coq regenerates them from the Go source on
+    every check, are the expressions of the model (statement in C14/SourceTie.v). *)
+Theorem C14_source_tie : C14_source_tie_statement.
+Proof. exact C14_source_tie_proof. Qed.
+Print Assumptions C14_source_tie.
+
+(** The hypotheses of C14_roundtrip_full_when_keys_differ are satisfiable (genesis {1,2,3}, +val4 at
+    block 1, +val5 at block 2, positional hash H0). *)
+Example C14_keys_differ_satisfiable : genesis_ok w_g2 w_gb /\ chain_wf w_g2 w_fresh_chain /\
+  valset_key H0 (vals (final_state w_g2 w_fresh_chain)) <> valset_key H0 (next_vals (final_state w_g2 w_fresh_chain)) /\
+  (forall X, last_vals (final_state w_g2 w_fresh_chain) = Some X ->
+     valset_key H0 X <> valset_key H0 (vals (final_state w_g2 w_fresh_chain)) /\
+     valset_key H0 X <> valset_key H0 (next_vals (final_state w_g2 w_fresh_chain))).
+Proof. exact w_fresh_ok. Qed.
 
 (** The hypotheses are satisfiable: the 9-state witness chain is a well-formed chain. *)
 Example C14_hypotheses_satisfiable : genesis_ok w_g2 w_gb /\ chain_wf w_g2 w_chain.
